@@ -73,13 +73,39 @@ def main():
     if build_only:
         print(f'c18_replay built in 8 configurations in {build_s:.1f}s')
         return 0
+    crashed = {}
     for name, pr in procs.items():
         so, se = pr.communicate()
         if pr.returncode != 0:
-            print(f'MACHINERY-FAILURE: c18_replay crashed in configuration {name}: rc={pr.returncode}', file=sys.stderr)
-            print(se[-2000:], file=sys.stderr)
-            return 2
+            crashed[name] = (pr.returncode, se[-1500:])
+            continue
         outputs[name] = so.splitlines()
+    if crashed and not outputs:
+        for name, (rc, se) in crashed.items():
+            print(f'MACHINERY-FAILURE: c18_replay crashed in configuration {name}: rc={rc}', file=sys.stderr)
+            print(se, file=sys.stderr)
+        return 2
+    if crashed:
+        # the replayer died (abort, stack overflow, unsafe-precondition check) in some configurations and ran
+        # to completion in others: the builds do not behave alike
+        twin.communicate()
+        os.makedirs(ROOT + '/replays', exist_ok=True)
+        path = f'{ROOT}/replays/C18-crash.json'
+        json.dump({'property': 'C18', 'key': 'C18:process-abort', 'crashed': {k: {'rc': v[0], 'stderr_tail': v[1]} for k, v in crashed.items()},
+                   'completed': sorted(outputs), 'depth': depth, 'seed': seed,
+                   'how': 'run harness/c18_replay/target/bins/c18-<config> <depth> <seed> harness/c18_replay/target/c18aux.txt in a crashed and in a completed configuration'}, open(path, 'w'), indent=1)
+        for name, (rc, se) in crashed.items():
+            last = [l for l in se.splitlines() if l.strip()][-2:]
+            print(f'violation[1] key=C18:process-abort :: the corpus replayer aborted (rc={rc}) in configuration {name} but ran to completion in {sorted(outputs)}: ' + ' | '.join(last), file=sys.stderr)
+        print(f'VIOLATION property=C18 replay={path}')
+        ev = {'property_id': 'C18', 'tier': tier, 'seed': int(seed), 'level': 'exploration',
+              'coverage': {'evaluations': sum(len(v) for v in outputs.values()), 'distinct_nontrivial': 0,
+                           'rule': 'the corpus replayer aborted in some build configurations and completed in others; no item comparison was possible',
+                           'samples': [{'crashed': sorted(crashed), 'completed': sorted(outputs)}], 'exhaustive': False},
+              'violations': [{'key': 'C18:process-abort', 'replay': path}], 'wall_s': round(time.time() - t0, 2)}
+        os.makedirs(ROOT + '/evidence', exist_ok=True)
+        json.dump(ev, open(ROOT + '/evidence/C18.json', 'w'), indent=1)
+        return 1
     names = list(outputs)
     ref = outputs[names[0]]
     n = len(ref)
